@@ -280,7 +280,14 @@ func init() {
 			mk := func(vs []c01Variant, tag string) func(in *decodeInput, seq int64) {
 				return func(in *decodeInput, seq int64) {
 					c.DistinctBytes([]byte(tag), in.Bytes)
-					measure := in.Fam == "large" || (seq%4 == 0 && len(in.Bytes) >= 20 && len(in.Bytes) == 20+(int(in.Bytes[2])<<8|int(in.Bytes[3])))
+					declared := 0
+					if len(in.Bytes) >= 20 {
+						declared = int(in.Bytes[2])<<8 | int(in.Bytes[3])
+					}
+					// the allocation clause is measured on a thinned set: exact-size inputs, the large family, and inputs
+					// that declare far more than they carry (an allocation sized from the declared length shows there)
+					measure := in.Fam == "large" || (seq%4 == 0 && len(in.Bytes) >= 20 && len(in.Bytes) == 20+declared) ||
+						(seq%16 == 1 && len(in.Bytes) >= 20 && declared >= 0x7FFF)
 					acc := c01Input(c, in.Bytes, vs, wc, measure)
 					if acc {
 						c.Outcome(tag + ":" + in.Fam + ":accept")
